@@ -92,6 +92,16 @@ func (s *Srv) oracle(key glow.PublicKey, msg []byte, sig glow.Signature) {
 	b := 0
 	if glow.Verify(key, msg, sig) {
 		b = 1
+		// a signature that has just verified must still not verify under somebody else's key
+		other := s.E.Temp.Pub
+		if other == key {
+			other = s.E.GCA.Pub
+		}
+		if other != key && glow.Verify(other, msg, sig) && !s.seen["x"+row] {
+			s.seen["x"+row] = true
+			s.T.Count("crypto.two-keys")
+			s.T.Line("crypto.check what=a-valid-signature-also-verifies-under-another-key => FAILED")
+		}
 	}
 	s.T.Line("v %s %d", row, b)
 }
